@@ -1,5 +1,5 @@
 use crate::permutable_kernel::Permutable;
-use crate::solver_smo::{SolverParams, SolverState};
+use super::{SolverParams, SolverState};
 use linfa_kernel::{Kernel, KernelInner, KernelMethod};
 use ndarray::Array2;
 
@@ -61,4 +61,61 @@ fn solve_puts_back_by_original_index() {
     s.swap(c, d);
     let svm = s.solve();
     for i in 0..N { assert!(svm.alpha[i] == alpha[i]); }
+}
+
+// ---------- batch 4: one SMO step keeps the pair inside its box ----------
+struct TableKernel { k: Kernel<f32>, q: [[f32; 2]; 2] }
+impl Permutable<f32> for TableKernel {
+    fn swap_indices(&mut self, _i: usize, _j: usize) {}
+    fn distances(&self, idx: usize, length: usize) -> Vec<f32> { let mut v = Vec::new(); let mut j = 0; while j < length { v.push(self.q[idx][j]); j += 1; } v }
+    fn self_distance(&self, idx: usize) -> f32 { self.q[idx][idx] }
+    fn inner(&self) -> &Kernel<f32> { &self.k }
+    fn into_inner(self) -> Kernel<f32> { self.k }
+}
+#[kani::proof]
+#[kani::unwind(4)]
+#[kani::stub(alloc::fmt::format, fmt_stub)]
+fn update_keeps_box() {
+    let q00: f32 = kani::any(); let q11: f32 = kani::any(); let q01: f32 = kani::any();
+    kani::assume(q00 >= 0.0 && q00 <= 4.0 && q11 >= 0.0 && q11 <= 4.0 && q01 >= -4.0 && q01 <= 4.0);
+    let a: [f32; 2] = kani::any(); let b: [f32; 2] = kani::any(); let p: [f32; 2] = kani::any(); let t: [bool; 2] = kani::any();
+    for i in 0..2 { kani::assume(b[i] >= 0.125 && b[i] <= 8.0 && a[i] >= 0.0 && a[i] <= b[i] && p[i] >= -4.0 && p[i] <= 4.0); }
+    let ds = Array2::zeros((2, 1));
+    let k = Kernel { inner: KernelInner::Dense(Array2::zeros((2, 2))), method: KernelMethod::Gaussian(1.0) };
+    let mut s = SolverState::new(a.to_vec(), p.to_vec(), t.to_vec(), ds.view(),
+        TableKernel { k, q: [[q00, q01], [q01, q11]] }, b.to_vec(), SolverParams { eps: 0.001, shrinking: false }, false);
+    s.update((0, 1));
+    let svm_alpha0 = s.alpha[0].val(); let svm_alpha1 = s.alpha[1].val();
+    eprintln!("a={:?} b={:?} p={:?} t={:?} q=({},{},{}) -> {} {}", a, b, p, t, q00, q11, q01, svm_alpha0, svm_alpha1);
+    assert!(svm_alpha0 >= 0.0 && svm_alpha0 <= b[0]);
+    assert!(svm_alpha1 >= 0.0 && svm_alpha1 <= b[1]);
+}
+
+#[test]
+fn kani_concrete_playback_update_keeps_box_17248020191604728392() {
+    let concrete_vals: Vec<Vec<u8>> = vec![
+        // 1.787495e-36
+        vec![48, 16, 24, 4],
+        // 2.465012e-32
+        vec![63, 251, 255, 10],
+        // -1.232595e-32
+        vec![254, 255, 127, 138],
+        // 6
+        vec![0, 0, 192, 64],
+        // 0
+        vec![0, 0, 0, 0],
+        // 6.375007
+        vec![15, 0, 204, 64],
+        // 0.375007
+        vec![248, 0, 192, 62],
+        // -3.124604e-30
+        vec![127, 127, 125, 142],
+        // -3.050638e-30
+        vec![70, 127, 119, 142],
+        // 1
+        vec![1],
+        // 0
+        vec![0],
+    ];
+    kani::concrete_playback_run(concrete_vals, update_keeps_box);
 }
